@@ -30,7 +30,7 @@ Width(m, inst) == IF m = "mtenet" THEN 2 + (inst % 2)
                   ELSE IF m = "pls" THEN 2 ELSE 1
 HasViews(m) == m # "ica"                    \* FastIca implements PredictInplace for Array2 only
 HasRow1(m)  == m \in {"kmeans", "svc", "svr", "svo", "svp"}
-HasF32(m)   == m \in {"kmeans", "ols", "enet", "logit", "svc", "svr", "tree", "gnb"}
+HasF32(m)   == m \in {"kmeans", "ols", "enet", "logit", "svc", "tree", "gnb"}   \* f32 SVR fits need ~10 s each (SMO does not converge): left out
 KindOf(m)   == IF m = "svp" THEN "platt" ELSE "plain"
 NonNeg(m)   == m = "mnb"
 
